@@ -473,7 +473,7 @@ TRIPLE_CLASSES = ["random", "random", "random", "del_vs_edit", "del_vs_edit", "i
                   "minor_diff", "retype", "empty_source", "both_append_outputs", "exec_count", "fixture",
                   "nbmeta_conflict", "out_meta_conflict", "multi_line_meta", "del_vs_transient", "del_vs_transient",
                   "both_insert_lists", "nul_in_source", "same_insert_edit_below", "transient_meta_conflict",
-                  "del_vs_output_edit", "large_outputs", "long_notebook", "wide_metadata", "both_rerun", "both_rerun", "same_size_sides", "repeated_content", "same_frame_insert", "cr_progress", "both_reid", "same_id_insert", "slash_keys", "same_edit_insert_above"]
+                  "del_vs_output_edit", "large_outputs", "long_notebook", "wide_metadata", "both_rerun", "both_rerun", "same_size_sides", "repeated_content", "same_frame_insert", "cr_progress", "both_reid", "same_id_insert", "slash_keys", "same_edit_insert_above", "multi_mime_conflict"]
 
 
 def merge_triple(gen, cls=None, minor=None, plain_eol=False):
@@ -1179,6 +1179,37 @@ def merge_triple(gen, cls=None, minor=None, plain_eol=False):
                 tmp = {"nbformat": 4, "nbformat_minor": m, "metadata": {}, "cells": [side["cells"][0]]}
                 for _ in range(r.choice([1, 2])):
                     mutate_once(tmp, gen, r.choice(["edit_output", "mime_edit", "out_meta", "rerun", "clear_outputs"]))
+    elif cls == "multi_mime_conflict":
+        # ONE rich output whose bundle conflicts under two (or three) mime types at once, while one branch alone also
+        # touched a sibling member of the output (its metadata / execution count): several decisions below one output,
+        # one-sided and two-sided ones side by side
+        ot = r.choice(["execute_result", "display_data"])
+        out = {"output_type": ot, "metadata": {}, "data": {
+            "text/plain": "<Figure size 640x480 with 1 Axes>", "text/html": "<div>\n<p>table</p>\n</div>",
+            "text/latex": "$x^2$"}}
+        if ot == "execute_result":
+            out["execution_count"] = 1
+        c = _code_cell(gen, m, "show()\n", [out] + [gen.output() for _ in range(r.choice([0, 0, 1]))])
+        c["execution_count"] = 1
+        for nb in (base, loc, rem):
+            nb["cells"].insert(0, copy.deepcopy(c))
+        mimes = r.sample(["text/plain", "text/html", "text/latex"], r.choice([2, 2, 3]))
+        for side, tag in ((loc, "L"), (rem, "R")):
+            d = side["cells"][0]["outputs"][0]["data"]
+            for mt in mimes:
+                d[mt] = d[mt] + " " + tag + str(r.randrange(10))
+        one = r.choice([loc, rem])
+        o = one["cells"][0]["outputs"][0]
+        cc = r.random()
+        if cc < 0.6:
+            o["metadata"][r.choice(["isolated", "needs_background"])] = r.choice([True, "light"])
+        elif cc < 0.8 and ot == "execute_result":
+            o["execution_count"] = 2
+            one["cells"][0]["execution_count"] = 2
+        else:
+            o["metadata"]["a"] = 1
+            o["data"]["application/json"] = {"k": 1}
+        info = {"mimes": mimes}
     elif cls == "same_line":
         nl = r.choice([1, 3, 5])
         lines = ["line %d of the cell = %d" % (j, r.randrange(100)) for j in range(nl)]
